@@ -56,8 +56,8 @@ Expected(e, P) ==
       [] a = "ExtendSequences"  -> OpExtendSequences(P[e.self], P[e.others[1]], x.flag)
       [] a = "ExtendMatrix"     -> OpExtendMatrix(P[e.self], P[e.others[1]])
       [] a = "RemoveSequences"  -> OpRemoveSequences(P[e.self], x.taxa)
-      [] a = "DiscardSequences" -> OpDiscardSequences(P[e.self], CmSeqToSet(x.taxa))
-      [] a = "KeepSequences"    -> OpKeepSequences(P[e.self], CmSeqToSet(x.taxa))
+      [] a = "DiscardSequences" -> OpDiscardSequences(P[e.self], x.taxa)
+      [] a = "KeepSequences"    -> OpKeepSequences(P[e.self], x.taxa)
       [] a = "NewSequence"      -> OpNewSequence(P[e.self], NsOf(e, P[e.self].ns), x.t, x.vals)
       [] a = "SetItem"          -> OpSetItem(P[e.self], NsOf(e, P[e.self].ns), x.t, x.vals)
       [] a = "DelItem"          -> OpDelItem(P[e.self], NsOf(e, P[e.self].ns), x.t)
@@ -71,6 +71,8 @@ Shape(e, P) ==
             ELSE "Concatenate:distinct-subset-names")
       [] e.action = "ExtendSequences" -> (IF e.a.flag THEN "ExtendSequences[add-new]" ELSE "ExtendSequences[default]")
       [] e.action \in {"Fill", "Pack"} -> e.action \o (IF e.a.append THEN "[append]" ELSE "[prepend]")
+      [] e.action \in {"RemoveSequences", "DiscardSequences", "KeepSequences"} ->
+           e.action \o (IF Cardinality(CmSeqToSet(e.a.taxa)) # Len(e.a.taxa) THEN "[repeated-taxon]" ELSE "")
       [] OTHER -> e.action \o KeyKind(e)
 
 GroupClause(e) ==
